@@ -98,5 +98,5 @@ GSpecSim == GInit /\ [][GNextSim]_gvars
 
 \* the configurations alone
 CaseSpec == GInit /\ [][FALSE]_gvars
-EmitCase == PrintT(<<"CASE", ToJson([w |-> w, cfg |-> cfg])>>)
+EmitCase == PrintT(<<"CASE", ToJson([w |-> w, cfg |-> cfg, base |-> [w |-> w, cfg |-> cfg] \in Base15])>>)
 =============================================================================
